@@ -69,7 +69,19 @@ def describe_place(body, p, depth=0):
             if fs and fs2 and fs[0] == fs2[0]:
                 return u["name"]
         return "env" + proj
+    ds0 = body.defs.get(l, [])
+    if len(ds0) == 1 and ds0[0][1] == "assign" and ds0[0][2].get("inlined_arg") and ds0[0][2]["rv"]["k"] == "use" and depth <= 6:
+        # a parameter of an inlined helper: describe what the caller passed
+        return describe(body, ds0[0][2]["rv"]["op"], depth + 1) + proj
     nm = body.local_name(l)
+    if nm and len(ds0) == 1 and ds0[0][1] == "assign" and ds0[0][2]["rv"]["k"] == "use" and depth <= 6:
+        # `let (line, column) = x.line_col()`: a name bound to one component of a call's result is an alias
+        q = op_place(ds0[0][2]["rv"]["op"])
+        if q is not None and any(isinstance(e, dict) and "f" in e for e in q["p"]) and not body.local_name(q["l"]) \
+                and not any(isinstance(e, dict) and "downcast" in e for e in q["p"]) and body.local_ty(q["l"]).startswith("("):
+            qd = body.defs.get(q["l"], [])
+            if len(qd) == 1 and qd[0][1] == "call":
+                return describe_place(body, q, depth + 1) + proj
     if nm:
         return nm + proj
     if 1 <= l <= body.arg_count:
@@ -99,9 +111,43 @@ def describe_place(body, p, depth=0):
     return "tmp" + proj
 
 
+def fully_inlined(facts):
+    """helper functions that only exist inside the anchored functions they were inlined into: every call to
+    them was replaced by their body, so their panic sites are audited there (with the actual arguments)"""
+    c = getattr(facts, "_fully_inlined", None)
+    if c is not None:
+        return c
+    inl = set()
+    for b in facts.bodies:
+        if b.id in facts.inlined:
+            for blk in b.blocks:
+                n = blk["term"].get("inlined_call")
+                if n:
+                    inl.add(n)
+    # coroutine bodies of inlined async fns count with their parent
+    for b in facts.bodies:
+        if b.parent in inl and b.kind.startswith("coroutine"):
+            inl.add(b.id)
+    remaining = set()
+    for b in facts.non_test_bodies():
+        if b.id in inl:
+            continue
+        for c in b.calls:
+            for n in c.names():
+                if n in inl:
+                    remaining.add(n)
+    out = {x for x in inl if x not in remaining and not any(facts.by_id.get(x) is not None and facts.by_id[x].parent == r for r in remaining)}
+    # a helper called from another helper that is itself fully inlined is fine; one still called elsewhere is not
+    facts._fully_inlined = out
+    return out
+
+
 def sites(facts):
     out = []
+    skip = fully_inlined(facts)
     for b in handwritten(facts):
+        if b.id in skip:
+            continue
         live = b.reachable_blocks()
         for bb in sorted(live):
             t = b.term(bb)
@@ -144,6 +190,9 @@ def auto_discharge(facts, s, cache):
     """returns a reason string when the site is discharged by a recognised idiom, else None"""
     b = s["body"]
     sig = s["sig"]
+    # 0. x + 0 / x - 0 cannot overflow
+    if s["kind"] == "assert" and re.match(r"^(Add|Sub)\(.*,0\):", sig):
+        return "adding / subtracting the constant 0"
     # 1. Sub dominated by the failing arm of the matching `<`
     if s["kind"] == "assert" and sig.startswith("Sub("):
         m = re.match(r"Sub\((.*),(.*)\):", sig)
